@@ -131,9 +131,12 @@ def _gc_cache(keep):
 def run_cases_for(g, rnd, maxlen, nrand, span_maxlen):
     cases = []
     ins = corpus.inputs_for(g, rnd, maxlen, nrand)
+    targeted = set(g.get("inputs", []))
     for (rule, kind) in g["rules"]:
         for s in ins:
-            for entry in ("parse_partial", "check_partial", "parse", "check"):
+            # targeted sentences of the big systematic families: the partial entries only (volume)
+            entries = ("parse_partial", "check_partial") if (s in targeted and len(g["rules"]) > 40) else ("parse_partial", "check_partial", "parse", "check")
+            for entry in entries:
                 cases.append((g["gid"], rule, entry, "str", 0, 0, s))
             if rule in ("WHITESPACE", "COMMENT") and len(s) > span_maxlen:
                 # C04's independent trailing-skip computation needs the skip rules at every offset
